@@ -34,13 +34,13 @@ fn copy_subjects() -> Vec<(&'static str, CopyFn)> {
 }
 
 fn fam_copy(cx: &mut Cx) {
-    let lens = lengths(cx);
     let big: Vec<usize> = if cx.thorough { vec![255, 256, 257, 511, 512, 513, 1023, 1024, 1025, 4095, 4096, 4097] } else { vec![256, 257, 1025, 4097] };
     for (name, f) in copy_subjects() {
         if !cx.subject(name, "copy", "") {
             continue;
         }
-        let mut rng = cx.rng.derive(name);
+        let lens = lengths(cx);
+            let mut rng = cx.rng.derive(name);
         for (li, &n) in lens.iter().chain(big.iter()).enumerate() {
             let classes: Vec<&str> = if n > 130 { vec!["random"] } else { CLASSES.to_vec() };
             for class in classes {
@@ -82,7 +82,8 @@ fn fam_copy(cx: &mut Cx) {
         if !cx.subject(name, "fill", "") {
             continue;
         }
-        for &n in lens.iter().chain(big.iter()) {
+        let lens = lengths(cx);
+            for &n in lens.iter().chain(big.iter()) {
             for v in [0u8, 0xFF, 0x80, 0x5B] {
                 let pls = cx.pls1();
                 let pls: Vec<(Pl, Pl)> = pls.iter().map(|&(_, b)| (Pl::A(0), b)).collect();
@@ -144,12 +145,12 @@ fn equal_subjects() -> Vec<(&'static str, EqFn)> {
 }
 
 fn fam_compare(cx: &mut Cx) {
-    let lens = lengths(cx);
     for (name, f) in compare_subjects() {
         if !cx.subject(name, "compare", "") {
             continue;
         }
-        let mut rng = cx.rng.derive(name);
+        let lens = lengths(cx);
+            let mut rng = cx.rng.derive(name);
         for (li, &n) in lens.iter().enumerate() {
             for (ci, class) in CLASSES.iter().enumerate() {
                 let a = content(class, n, &mut rng);
@@ -236,7 +237,8 @@ fn fam_compare(cx: &mut Cx) {
         if !cx.subject(name, "equal", "") {
             continue;
         }
-        let mut rng = cx.rng.derive(name);
+        let lens = lengths(cx);
+            let mut rng = cx.rng.derive(name);
         for (li, &n) in lens.iter().enumerate() {
             let a = content("ascii", n, &mut rng);
             if n > 0 {
@@ -304,12 +306,12 @@ fn findbyte_subjects() -> Vec<(&'static str, FindFn)> {
 }
 
 fn fam_findbyte(cx: &mut Cx) {
-    let lens = lengths(cx);
     for (name, f) in findbyte_subjects() {
         if !cx.subject(name, "find_byte", "") {
             continue;
         }
-        let mut rng = cx.rng.derive(name);
+        let lens = lengths(cx);
+            let mut rng = cx.rng.derive(name);
         for &n in lens.iter() {
             // (class of the haystack, needle absent from it)
             let combos: [(&str, u8); 7] = [("zeros", 0x41), ("zeros", 0x80), ("zeros", 0xFF), ("ramp", 200), ("high", 0x7F), ("high", 0), ("random", 0x80)];
